@@ -128,6 +128,10 @@ def gen_ring(rng, resolved=True, kinds=None):
         # put the delay on links leaving time components, split over one to three adapters
         cands = [l for l in links if comps[l["src"]]["kind"] == "time"]
         mode = rng.choice(["one", "split", "spread", "dpush", "dpull"])
+        if mode in ("one", "split", "spread") and rng.random() < 0.4:
+            # fixed delays may also sit *downstream* of a pull-based component on the ring
+            cands = [l for l in links if comps[l["src"]]["kind"] in ("time", "pull")]
+            rng.shuffle(cands)
         if mode == "dpull" and not all(c["kind"] == "time" and len(c["steps"]) == 1 for c in comps):
             mode = "one"   # (DelayToPull counts requests: a fixed step of the consumer makes its delay a fixed time)
         def effective_pos(l):
